@@ -221,8 +221,16 @@ def run(ctx, rep) -> None:
     rep.attempt("convergence_flag", convergence_flag, ctx, rep, "C10.2")
     rep.attempt("higher_order_guards", higher_order_guards, ctx, rep, "C10.3")
     rep.attempt("ridge_discipline", ridge_discipline, ctx, rep, "C10.4")
+    from .arith import newton_arithmetic
     from .c03 import exact_diagonal_flag
+
+    rep.rule("C10.6", "coupled inverse Newton: initial scaling z = (p+1)/(2|A+eps I|_F), X0 = z^(1/p) I, M0 = z(A+eps I) and one iteration M' = (1-alpha)I + alpha M, X <- X M', M <- M'^p M as documented (exact term comparison, matrix products uninterpreted)")
+    rep.attempt("newton_arithmetic", newton_arithmetic, ctx, rep, "C10.6")
 
     rep.rule("C10.5", "the diagonal fast path is taken only for exactly diagonal matrices")
     rep.attempt("exact_diagonal_flag", exact_diagonal_flag, ctx, rep, "C10.5")
+    from .arith import eigen_root_arithmetic
+
+    rep.rule("C10.7", "eigen solver and fast paths compute the documented formulas (exact term comparison): X = (Q * (lambda - min(lambda_min,0) + eps)^(-1/root)) @ Q^T; diag((d + eps)^(-1/root)); (a + eps)^(-1/root)")
+    rep.attempt("eigen_root_arithmetic", eigen_root_arithmetic, ctx, rep, "C10.7")
     rep.assume("every accuracy bound of the statement and the agreement of fast paths with the general path are numerical and NOT decided; this is the weakest claimed property")
